@@ -127,6 +127,46 @@ Example c13_address_stray_gt :
   parse_address_list (S_ ">a<") = Some (S_ "((NIL NIL "">a<"" NIL))").
 Proof. vm_compute. reflexivity. Qed.
 
+(** BODYSTRUCTURE of a single-part message: the fields printed after the
+    parameter list (id, description, encoding, size, lines, extension NILs),
+    computed from the raw message as BuildBodyStructure does, are single tokens;
+    id / description / encoding are NIL or ONE quoted string and the encoding
+    is always one quoted string — for every raw message whose three header
+    values carry no bare CR (hostile quotes, backslashes, parentheses, braces,
+    8-bit included). *)
+Theorem c13_bodystructure_fields_ok : forall (raw : str) (is_text : bool),
+  clean (extract_header raw (S_ "Content-ID")) = true ->
+  clean (extract_header raw (S_ "Content-Description")) = true ->
+  clean (extract_header raw (S_ "Content-Transfer-Encoding")) = true ->
+  Forall (fun t => tokb t = true) (single_tail raw is_text)
+  /\ Forall (fun t => nstring_ok t = true) (firstn 3 (single_tail raw is_text))
+  /\ quoted_strict (nth 2 (single_tail raw is_text) []) = true.
+Proof. exact single_tail_ok. Qed.
+Print Assumptions c13_bodystructure_fields_ok.
+
+(** every QuoteOrNIL result is NIL or exactly one quoted string (what an
+    nstring field must be), for every CR/LF-free input *)
+Theorem c13_quote_or_nil_nstring : forall s : str, clean s = true -> nstring_ok (quote_or_nil s) = true.
+Proof. exact nstring_quote_or_nil. Qed.
+Print Assumptions c13_quote_or_nil_nstring.
+
+(** disposition of a part: a parsed type gives ("TYPE" params) starting with
+    one quoted string *)
+Theorem c13_disposition_strict : forall (t : str) (ps : list (str * str)), t <> [] -> clean t = true ->
+  exists rest, disp_list (Some (t, ps)) = LP :: quote_or_nil (to_upper t) ++ rest
+               /\ quoted_strict (quote_or_nil (to_upper t)) = true.
+Proof. exact disp_list_strict. Qed.
+Print Assumptions c13_disposition_strict.
+
+(** Confirmed (new): a Content-Disposition that mime.ParseMediaType rejects is
+    printed (NIL NIL), which does not start with a string. *)
+Theorem c13_refuted_disposition_nil :
+  classify_disp (Some ([], [])) = Some disposition_nil
+  /\ disp_list (Some ([], [])) = S_ "(NIL NIL)"
+  /\ quoted_strict (S_ "NIL") = false.
+Proof. exact refuted_disposition_nil. Qed.
+Print Assumptions c13_refuted_disposition_nil.
+
 (** Confirmed: QuoteOrNIL does not handle CR; "Subject: a<CR>b" reaches the
     ENVELOPE quoted string. *)
 Theorem c13_refuted_bare_cr_header :
